@@ -146,8 +146,9 @@ impl Stats {
         if self.population == 0 {
             return Err(error::CIError::TooFewSamples(self.population));
         }
-        #[allow(clippy::manual_range_contains)]
-        if quantile < 0. || 1. < quantile {
+        #[allow(clippy::manual_range_contains, clippy::neg_cmp_op_on_partial_ord)]
+        if !(0. <= quantile && quantile <= 1.) {
+            // also rejects NaN
             return Err(error::CIError::InvalidQuantile(quantile));
         }
         let index = (quantile * self.population as f64).floor() as usize;
